@@ -313,6 +313,10 @@ class Policy:
     def want_body(self, b):
         return True
 
+    def post_call(self, engine, view, bb, term, ret, argvals):
+        """Adjust the value a call returns (e.g. to inject a source label)."""
+        return ret
+
 
 class Engine:
     def __init__(self, facts, policy):
@@ -405,6 +409,7 @@ class Engine:
             return self._alias_cache[key]
         al = {}
         locs = view.locals
+        holders = set()
 
         def resolve(place):
             l, proj = place
@@ -440,9 +445,22 @@ class Engine:
                     if s[0] != "a" or s[1][1]:
                         continue
                     d = s[1][0]
+                    rv = s[2]
+                    if rv[0] == "agg" and not mir.is_ptr_ty(locs[d]):
+                        # a struct/tuple/closure holding pointers aliases what they point to
+                        src = set()
+                        for o in rv[4]:
+                            if o[0] in ("c", "m") and not o[1][1] and mir.is_ptr_ty(locs[o[1][0]]):
+                                src |= al.get(o[1][0]) or {(o[1][0], ())}
+                        if src:
+                            holders.add(d)
+                            cur = al.setdefault(d, set())
+                            if not src <= cur:
+                                cur |= src
+                                changed = True
+                        continue
                     if not mir.is_ptr_ty(locs[d]):
                         continue
-                    rv = s[2]
                     src = None
                     if rv[0] in ("ref", "rawptr"):
                         src = resolve(rv[2])
@@ -466,8 +484,11 @@ class Engine:
                             cur |= src
                             changed = True
                 t = bb["term"]
-                if t["k"] == "call" and not t["dst"][1] and mir.is_ptr_ty(locs[t["dst"][0]]):
+                if t["k"] == "call" and not t["dst"][1] and (mir.is_ptr_ty(locs[t["dst"][0]]) or
+                                                             "<'" in locs[t["dst"][0]] or "&" in locs[t["dst"][0]]):
                     d = t["dst"][0]
+                    if not mir.is_ptr_ty(locs[d]):
+                        holders.add(d)
                     src = set()
                     for a in t["args"]:
                         if a[0] in ("c", "m") and mir.is_ptr_ty(locs[a[1][0]]) and not a[1][1]:
@@ -477,8 +498,8 @@ class Engine:
                         if not src <= cur:
                             cur |= src
                             changed = True
-        self._alias_cache[key] = (al, resolve)
-        return al, resolve
+        self._alias_cache[key] = (al, resolve, holders)
+        return al, resolve, holders
 
     # ---- per body analysis ----------------------------------------------------------------------
     def analyze(self, bid, collect=False):
@@ -486,7 +507,7 @@ class Engine:
         view = self.view(bid)
         b = view.b
         pol = self.policy
-        al, resolve = self.aliases(view)
+        al, resolve, holders = self.aliases(view)
         nloc = len(view.locals)
         argc = view.argc
         init = {}
@@ -530,6 +551,13 @@ class Engine:
                 st[l] = val
                 return
             locs = resolve(place)
+            if holders:
+                extra = set()
+                for (x, p) in locs:
+                    if x in holders:
+                        extra |= al.get(x, set())
+                if extra - locs:
+                    locs = locs | extra
             direct = not mir.has_deref(proj) and not mir.index_locals(proj) and \
                 not any(e != "*" and e[0] in ("ci", "ss") for e in proj)
             for (x, p) in locs:
@@ -712,6 +740,7 @@ class Engine:
                                 sl = pol.filter_event(kind, sl, info) if sl else sl
                                 if sl:
                                     events.append(Event(kind, sink, sl, info, (bi, "term"), via=(cid,)))
+            ret = pol.post_call(self, view, bi, t, ret or Val(), argvals)
             # apply
             for i, v in writes.items():
                 if i - 1 < len(args) and args[i - 1][0] in ("c", "m"):
